@@ -59,4 +59,56 @@ theorem alloc_only_failure (inp : Input) (wf : WellFormed inp) (dom : InDomain i
     obtain ⟨p, hp, rfl⟩ := List.mem_map.1 ((mem_dedup _ _).1 hxy)
     exact ⟨res, p, hp, h⟩
 
+/-- **Completeness, general form.** No alignment on the requested resources and, per chip
+and resource, the total demand fits into the window between the reservations that touch
+index 0 and the first reservation that starts above 0 (all non-empty reservations lie
+outside that window; they may overlap each other, be empty or stick out of the range):
+the allocator succeeds, and what it returns satisfies the property. -/
+theorem alloc_complete_window (inp : Input) (wf : WellFormed inp) (dom : InDomain inp)
+    (fit : ∀ p ∈ inp.placements, ∀ q ∈ inp.vr, q.1 = p.1 → ∀ rd ∈ q.2, FitsAt inp p.2 rd.1) :
+    ∃ out, allocate inp = .ok out ∧ Valid inp (strip out) := by
+  have hreq := reqOk_of_domain wf dom
+  obtain ⟨out, h⟩ := allocChips_complete wf.demandNonneg (chipOrder inp) (by
+    intro xy hxy v hv
+    obtain ⟨rs, hl, hr⟩ := hreq xy hxy v hv
+    refine ⟨rs, hl, fun rd hrd => ⟨hr rd hrd, ?_⟩⟩
+    exact fit (v, xy) ((mem_chipVertices _ _ _).1 hv) (v, rs) (mem_of_lookup hl) rfl rd hrd)
+  exact ⟨out, h, alloc_sound inp out wf h⟩
+
+/-- **Completeness (the clause of the property).** Without alignment constraints and with
+reservations only at the two ends of each range, a feasible placement (the demand on
+every chip fits between the reserved ends) is always allocated - no
+`InsufficientResourceError` - and the result satisfies the property. -/
+theorem alloc_complete (inp : Input) (wf : WellFormed inp) (dom : InDomain inp)
+    (feas : Feasible inp) : ∃ out, allocate inp = .ok out ∧ Valid inp (strip out) :=
+  alloc_complete_window inp wf dom
+    (fun p hp q hq e rd hrd => (feas p hp q hq e rd hrd).fits)
+
+/-! ### non-vacuity: the hypotheses hold for non-trivial instances -/
+
+/-- 2x1 machine, chip (1,0) has fewer cores; resource 0 reserved at both ends globally,
+a local reservation on (0,0); three vertices on (0,0) (one zero-size), one on (1,0) -/
+def exEnds : Input :=
+  { vr := [(0, [(0, 3), (1, 10)]), (1, [(0, 0)]), (2, [(0, 2)]), (3, [(0, 4)])],
+    machine := { width := 2, height := 1, chipResources := [(0, 10), (1, 100)],
+                 exceptions := [((1, 0), [(0, 8), (1, 50)])], dead := [] },
+    constraints := [.reserve 0 ⟨0, 1⟩ none, .reserve 0 ⟨0, 2⟩ (some (0, 0)), .other,
+                    .reserve 0 ⟨7, 10⟩ none, .align 1 1],
+    placements := [(0, (0, 0)), (3, (1, 0)), (2, (0, 0)), (1, (0, 0))] }
+
+example : WellFormed exEnds ∧ InDomain exEnds ∧ Feasible exEnds := by decide
+
+example : (allocate exEnds).map strip = .ok
+    [(0, [(0, ⟨2, 5⟩), (1, ⟨0, 10⟩)]), (2, [(0, ⟨5, 7⟩)]), (1, [(0, ⟨7, 7⟩)]), (3, [(0, ⟨1, 5⟩)])] := by
+  rfl
+
+/-- alignment 4 and an interior reservation: well-formed and in the domain (soundness and
+only-failure apply), not `Feasible` -/
+def exAlign : Input :=
+  { exEnds with constraints := [.reserve 0 ⟨3, 5⟩ none, .align 0 4, .reserve 0 ⟨4, 6⟩ (some (0, 0))] }
+
+example : WellFormed exAlign ∧ InDomain exAlign ∧ ¬ Feasible exAlign := by decide
+
+example : allocate exAlign = .error (.insufficient 0 (0, 0)) := by rfl
+
 end Rig.C05
